@@ -47,7 +47,7 @@ Dense(expr, ops, order, C) ==
 \* ---- operational: the loop-nest machine ----
 \* st = [z |-> set of <<pt, v>>, mul, add, upd |-> counters, it |-> bodies per loop level, rows |-> per level the iteration-trace rows]
 ZGet(z, p) == IF \E x \in z : x[1] = p THEN (CHOOSE x \in z : x[1] = p)[2] ELSE 0
-ZPut(z, p, v) == {x \in z : x[1] # p} \cup {<<p, v>>}
+ZPut(z, p, v) == {x \in z : x[1] # p} \cup (IF v = 0 THEN {} ELSE {<<p, v>>})       \* a sum that cancels leaves no element (populate removes it)
 
 RECURSIVE RunLevel(_, _, _, _, _, _, _)
 RECURSIVE RunCoords(_, _, _, _, _, _, _, _, _)
